@@ -16,10 +16,12 @@ def restSum (R : Ptr → Rat) (ws : List Word) : Nat → Rat
 def NormS (s : State) : Prop := s.words.length = s.length ∧ s.backoff.length = s.length
 
 /-- why a fragment's left state is complete: (a) the n-gram `w_0 … w_L` cannot be extended to the left by any
-table entry, or (b) all words are in the left state but the whole fragment does not extend right -/
+table entry, (b) all words are in the left state but some suffix of the fragment does not extend right, or
+(c) the fragment is a complete (N-1)-gram -/
 def Closed (T : Table) (ws : List Word) (L : Nat) : Prop :=
   (L < ws.length ∧ ∀ x, T.lookup (pre ws L ++ [x]) = none) ∨
-  (L = ws.length ∧ 0 < L ∧ T.xr ws.reverse = false)
+  (L = ws.length ∧ 0 < L ∧ ∃ k, 1 ≤ k ∧ k ≤ ws.length ∧ T.xr (ws.reverse.take k) = false) ∨
+  (L = ws.length ∧ L = T.order - 1)
 
 /-- **the fragment invariant** (`RuleScore` before `Finish`): the chart state and accumulated score are the
 canonical ones of the word sequence `ws`, with `L` words still in the left state -/
@@ -82,29 +84,38 @@ theorem Closed.append (H : Hyp a T) {ws : List Word} {L : Nat} (hc : Closed T ws
   cases l with
   | nil => simpa using hc
   | cons w l' =>
-    rcases hc with ⟨h1, h2⟩ | ⟨h1, h2, h3⟩
+    have hp : L = ws.length → pre (ws ++ w :: l') L = w :: ws.reverse := by
+      intro h1
+      unfold pre
+      subst h1
+      have : ws ++ w :: l' = (ws ++ [w]) ++ l' := by simp
+      rw [this, List.take_append_of_le_length (by simp), List.take_of_length_le (by simp)]
+      simp
+    rcases hc with ⟨h1, h2⟩ | ⟨h1, h2, k, hk1, hk2, h3⟩ | ⟨h1, h2⟩
     · left
       refine ⟨by simp; omega, ?_⟩
       rw [pre_append ws _ h1]; exact h2
     · left
       refine ⟨by simp; omega, ?_⟩
       intro x
-      have hne : ws.reverse ≠ [] := by
-        intro hn
-        have : ws = [] := by simpa using hn
-        subst this; simp at h1; omega
-      have hnone : T.lookup (w :: ws.reverse) = none := by
+      have hne : ws.reverse.take k ≠ [] := take_ne_nil hk1 (by simpa using hk2)
+      have hnone : T.lookup (w :: ws.reverse.take k) = none := by
         apply Classical.byContradiction; intro hc
-        have := H.marks ws.reverse w hne hc
+        have := H.marks _ w hne hc
         rw [h3] at this; cases this
-      have hp : pre (ws ++ w :: l') L = w :: ws.reverse := by
-        unfold pre
-        subst h1
-        have : ws ++ w :: l' = (ws ++ [w]) ++ l' := by simp
-        rw [this, List.take_append_of_le_length (by simp), List.take_of_length_le (by simp)]
-        simp
-      rw [hp]
-      exact lookup_none_extend H.ok [x] (w :: ws.reverse) (by simp) hnone
+      have h4 := lookup_none_take H.ok w ws.reverse k ws.length hk2 hnone
+      rw [List.take_of_length_le (by simp)] at h4
+      rw [hp h1]
+      exact lookup_none_extend H.ok [x] (w :: ws.reverse) (by simp) h4
+    · left
+      refine ⟨by simp; omega, ?_⟩
+      intro x
+      rw [hp h1]
+      apply Classical.byContradiction; intro hne
+      have := H.ok.len_le _ hne
+      simp only [List.length_cons, List.length_append, List.length_reverse, List.length_nil] at this
+      have := H.ok.order_ge
+      omega
 
 /-! ### `FullScore` over the rest-cost search, in terms of the resumed loop -/
 
@@ -288,9 +299,9 @@ theorem terminal_frag_aux (H : Hyp a T) (R : Ptr → Rat) {ws : List Word} {L : 
         have : ((fullScore (restSearch T R) rs.out.right w).2.length != rs.out.right.length + 1) = true := hdn
         rw [hout_len, hrl] at this
         have hnu : acc.nextUse ≠ ws.length + 1 := by simpa using this
-        right
-        refine ⟨by simp; omega, by omega, ?_⟩
-        rw [hrev]
+        right; left
+        refine ⟨by simp; omega, by omega, ws.length + 1, by omega, by simp, ?_⟩
+        rw [hrev, List.take_of_length_le (by simp)]
         have hnucases := post.nu
         rw [hmin] at hnucases
         simp only [List.singleton_append, List.length_singleton] at hnucases
